@@ -1,1 +1,2 @@
 import Properties.C18
+import Properties.C15
